@@ -3,6 +3,7 @@
 //!   gv replay <ID> <file>               re-evaluate a saved case, bypassing all generators
 mod ast;
 mod choices;
+mod docw;
 mod drive;
 mod engine;
 mod gen;
